@@ -48,7 +48,7 @@ func init() {
 
 func c16(r *Run) {
 	w := r.W
-	defer r.importRules(c26, "C26.R3")
+	defer r.importRules(c26, "C26.R3", "C26.R4")
 	r.rule("C16.R1", "K1", "every transaction's (unsigned bytes, auth) is added; job sized len(Txs); Done always scheduled", 4)
 	r.rule("C16.R2", "K2", "Execute succeeds only through waitSignatures==nil on the job created by verifySignatures; waitSignatures propagates Job.Wait's error", 3)
 	r.rule("C16.R3", "K7", "AuthBatch.Add submits on both branches; Done drains every worker, forwards leftovers, then closes the job; worker forwards early batches", 6)
@@ -817,5 +817,28 @@ func c26(r *Run) {
 	if sw != nil {
 		outs := returnOutcomes(sw)
 		r.check(len(outs) == 1 && outs[0].ErrTerm == "p0.err", "C26.R4", "SerialJob.Wait:returns-error", w.rel(sw.Pos()), "", "SerialJob.Wait does not return the recorded error")
+		// Wait returns only after Done: tasks are added from other goroutines (the batch verifier) until Done is called
+		var recv ssa.Instruction
+		eachInstr(sw, func(i ssa.Instruction) {
+			if u, ok := i.(*ssa.UnOp); ok && u.Op == token.ARROW && term(u.X) == "p0.done" {
+				recv = i
+			}
+		})
+		okW := recv != nil
+		if okW {
+			for _, o := range outs {
+				if !dominatesI(recv, o.Ret) {
+					okW = false
+				}
+			}
+		}
+		closes := 0
+		if sd := w.Fn("(*" + pkgWorkers + ".SerialJob).Done"); sd != nil {
+			r.saw(sd)
+			for _, f := range withNested(sd) {
+				closes += len(findEffects(f, "call builtin.close(*.done)"))
+			}
+		}
+		r.check(okW && closes == 1, "C26.R4", "SerialJob.Wait:blocks-until-Done", w.rel(sw.Pos()), "", "SerialJob.Wait does not wait for Done: with tasks added from another goroutine (batched signature verification) the job reports success before all tasks ran")
 	}
 }
